@@ -3980,7 +3980,7 @@ class Generator:
         unit = f" {unit}" if unit else ""
 
         if self.SINGLE_STRING_INTERVAL:
-            this = expression.this.name if expression.this else ""
+            this = self.escape_str(expression.this.name) if expression.this else ""
             if this:
                 interval_keyword = f"{interval_keyword} " if interval_keyword else ""
                 if unit_expression and isinstance(unit_expression, exp.IntervalSpan):
